@@ -1115,6 +1115,14 @@ def gen_c02(seed, index):
     for _ in range(rng.randint(1, 3)):
         g.op_query("pexp")
     scn["queries"] = g.ops
+    if scale and rng.random() < 0.5:
+        # one feature measured in small units: its standard deviation lies between the variance tolerance of the
+        # library (1e-6) and 1e-3, so it must still be divided by its standard deviation
+        j = rng.randrange(g.d)
+        fac = rng.choice([2.0 ** -13, 2.0 ** -12, 2.0 ** -14])
+        for op in scn["ops"] + scn["queries"]:
+            if op.get("c"):
+                op["c"] = [[v * fac if k == j else v for k, v in enumerate(row)] for row in op["c"]]
     return scn
 
 
